@@ -614,12 +614,12 @@ void cmi_hashheap_reprioritize(const struct cmi_hashheap *hp,
     cmb_assert_release(idx != 0u);
 
     /* Save a copy of the old values */
-    hp->heap[0] = hp->heap[idx];
+    const struct cmi_heap_tag old = hp->heap[idx];
 
     hp->heap[idx].dsortkey = dsortkey;
     hp->heap[idx].isortkey = isortkey;
 
-    if ((*hp->heap_compare)(&(hp->heap[0]), &(hp->heap[idx]))) {
+    if ((*hp->heap_compare)(&old, &(hp->heap[idx]))) {
         /* The old values should go before the new ones, item heading down */
         heap_down(hp, idx);
     }
